@@ -484,15 +484,29 @@ def is_reject_branch(ctx, n):
         if x.get("kind") != "CallExpr" or callee_name(x) not in ("syslog_libbidib", "syslog"): return False
     return True
 
+def disjuncts(n):
+    """top-level  a || b || c  of a range check -> [a, b, c]"""
+    m = n
+    while m.get("kind") == "ParenExpr": m = kids(m)[0]
+    if m.get("kind") == "BinaryOperator" and m.get("opcode") == "||":
+        l, r = kids(m)
+        return disjuncts(l) + disjuncts(r)
+    return [n]
+
 def tr_reject_chain(ctx, s):
-    """IfStmt whose branches all reject -> list of (reads-prefix, condition text)"""
+    """IfStmt whose branches all reject -> list of (reads-prefix, condition text).
+    `if (a || b) reject` is emitted as `if (a) reject else if (b) reject` (the same control flow), so that a read in b
+    is made only after a has been found false, as in the C."""
     out = []
     while True:
         parts = kids(s)
         if len(parts) not in (2, 3): ctx.err(s, "if statement shape")
         if not is_reject_branch(ctx, parts[1]): ctx.err(parts[1], "range-check branch must be 'syslog_libbidib(...); return;'")
-        c = as_bool(ctx, parts[0], tr_expr(ctx, parts[0]))
-        out.append((take_reads(ctx), c.text))
+        ds = disjuncts(parts[0])
+        if len(ds) > 1 and not any(mentions_kind(d, ("ArraySubscriptExpr",)) for d in ds): ds = [parts[0]]
+        for d in ds:
+            c = as_bool(ctx, d, tr_expr(ctx, d))
+            out.append((take_reads(ctx), c.text))
         if len(parts) == 2: return out
         s = parts[2]
         if s.get("kind") != "IfStmt": ctx.err(s, "'else' of a range check must be another range check")
@@ -674,6 +688,9 @@ def to_coq(res):
         return "gen_%s%s" % (f["name"], a)
     L.append("Definition gen_call (f : fn) (sc : list Z) (bufs : list (list Z)) : outcome :=\n  match f with\n" +
              "\n".join("  | F_%s => %s" % (f["short"], call(f)) for f in fns) + "\n  end.\n")
+    L.append("(* the constant type argument of the bidib_buffer_message_with(out)_data call *)")
+    L.append("Definition gen_type (f : fn) : Z :=\n  match f with\n" +
+             "\n".join("  | F_%s => %d" % (f["short"], f["type"]) for f in fns) + "\n  end.\n")
     L.append("(* the first three uint8_t arguments are node_address.top/sub/subsub *)")
     L.append("Definition has_node_address (f : fn) : bool :=\n  match f with\n" +
              "\n".join("  | F_%s => %s" % (f["short"], "true" if f["has_addr"] else "false") for f in fns) + "\n  end.\n")
